@@ -18,7 +18,7 @@ for aid in sys.argv[1:]:
         dst = os.path.join(V, "benign", f"{aid}-{r}")
         os.makedirs(dst, exist_ok=True)
         shutil.copy(pp, os.path.join(dst, "patch.diff"))
-        note.update({"id": f"{aid}-{r}", "kind": "behaviour-preserving refactoring", "round": 2,
+        note.update({"id": f"{aid}-{r}", "kind": "behaviour-preserving refactoring", "round": int(os.environ.get("BENIGN_ROUND", "2")),
                      "applies_to_head": chk.returncode == 0,
                      "origin": "fresh sub-agent given only the target files and a scratch worktree of /repo at 338ea40; nothing from /verif"})
         json.dump(note, open(os.path.join(dst, "meta.json"), "w"), indent=1)
